@@ -10,6 +10,7 @@ package xmpp
 
 import (
 	"io"
+	"reflect"
 	"sort"
 	"time"
 )
@@ -37,6 +38,15 @@ func VerifPendingIQ(r *Router) []string {
 	var ids []string
 	for id := range r.IQResultRoutes {
 		ids = append(ids, id)
+	}
+	// (requests waiting behind another one with the same id, where the tree has such a table: looked up by
+	// name so that this file also builds against trees without it)
+	if f := reflect.ValueOf(r).Elem().FieldByName("shadowedIQResultRoutes"); f.IsValid() && f.Kind() == reflect.Map {
+		for _, k := range f.MapKeys() {
+			for i := 0; i < f.MapIndex(k).Len(); i++ {
+				ids = append(ids, k.String()+"(waiting)")
+			}
+		}
 	}
 	sort.Strings(ids)
 	return ids
